@@ -145,6 +145,9 @@ func (w *World) verifyFunction(fn *ssa.Function, ct *Contract, props []string) (
 			c.obligeNamed("frame.heap", "frame", w.Fset.Position(fn.Pos()), "declared frame (modifies nothing): a callee may modify the whole heap", exitGuard, tFalse)
 		}
 		for _, k := range sortedKeys(exitState.heaps) {
+			if strings.HasPrefix(k, "MVIS:") {
+				continue // ghost state of map iteration, not program memory
+			}
 			hx := exitState.heaps[k]
 			h0 := c.heapGet(ex.entry, k)
 			if hx.S == h0.S {
